@@ -148,6 +148,8 @@ pub fn concrete_ops() -> Vec<Op> {
         AppendFrom(0, 1),
         Drain(0, e(), 0, 2),
         ExtendFromWithin(0, e(), 0, 1),
+        DrainBounds(0, e(), (1, 0), (0, 1)),
+        ExtendFromWithinBounds(0, e(), (1, 0), (2, 0)),
         Resize(0, e(), 4, Lit::Str("r".into())),
         ResizeWith(0, e(), 2),
         IterMutSet(0, e(), Lit::U(0)),
